@@ -17,7 +17,8 @@ theorem pool_discipline : ∀ p ∈ poolUses, poolOk p = true := by decide +kern
 
 theorem pool_uses_found : 0 < poolUses.length := by decide +kernel
 
-example : poolOk { pkg := "ff", fn := "SetBytes", line := 0, putKind := "stmt", usesAfterPut := 1, escapes := 0 } = false := by decide
+example : poolOk { pkg := "ff", fn := "SetBytes", line := 0, putKind := "stmt", puts := 1, usesAfterPut := 1, escapes := 0 } = false := by decide
+example : poolOk { pkg := "poseidon", fn := "HashWithStateEx", line := 0, putKind := "defer", puts := 2, usesAfterPut := 0, escapes := 0 } = false := by decide
 example : noGlobalWriteOutsideInit
     { pkg := "poseidon", fn := "mix", line := 0, kind := "call-writes-recv", what := "scratch.Mul(a, b)", origins := [.global "poseidon.scratch"], exported := false } = false := by
   decide
